@@ -293,7 +293,13 @@ func c13ServedMain(e *Env) (*res.Result, error) {
 		bf := rapid.SampledFrom(forms).Draw(t, "baseform")
 		d := c.RouterDoc(specgen.RouterOpts{MaxN: 4, MaxDepth: 3})
 		// a root-level catch-all template that can match the spec path
-		if rapid.IntRange(0, 2).Draw(t, "catch_all") == 0 {
+		hasRootVar := false
+		for tpl := range d.Paths {
+			if strings.HasPrefix(tpl, "/{") && strings.Count(strings.TrimSuffix(tpl, "/"), "/") == 1 {
+				hasRootVar = true // a second /{x} would be the same template twice
+			}
+		}
+		if !hasRootVar && rapid.IntRange(0, 2).Draw(t, "catch_all") == 0 {
 			v := c.PlainName("v", "catchall")
 			d.Paths["/{"+v+"}"] = &specgen.PathItem{Get: &specgen.Operation{Parameters: []*specgen.Parameter{{Name: v, In: "path", Required: true, Schema: &specgen.Schema{Type: "string"}}}, Responses: specgen.EmptyResponses()}}
 		}
